@@ -384,3 +384,41 @@ def parse_response_violation(version, opid="op_resp"):
                 if why:
                     return why
     return None
+
+
+def derived_violation(pattern, kind, order):
+    """None if a model with a property `base` of the schematic kind and an integer sibling spelled like the derived name
+    `pattern.format("base")` round-trips every small instance (C18: derived names); else a description.  Native run."""
+    import copy
+    from . import fragments
+    import contracts.models_f as mf
+    from openapi_python_client import utils
+    base_doc, _, _ = mf.document("3.1.0")
+    comps = {k: v for k, v in copy.deepcopy(base_doc["components"]["schemas"]).items()
+             if not (k.startswith("M") and k[1:2].isupper() and k != "ModelExtra")}
+    sib = pattern.format("base")
+    schema = copy.deepcopy(mf.SCALARS[kind])
+    props = {"base": schema, sib: {"type": "integer"}} if order == "after" else {sib: {"type": "integer"}, "base": schema}
+    comps["Drv"] = {"type": "object", "properties": props}
+    doc = {"openapi": "3.1.0", "info": {"title": "drv", "version": "1"}, "paths": {}, "components": {"schemas": comps}}
+    pkg = fragments.generate_package(doc)
+    try:
+        if any("Drv" in (e.header or "") + (e.detail or "") for e in pkg.errors):
+            return None             # reported by a diagnostic: allowed
+        try:
+            cls = pkg.module("models.drv").Drv
+        except BaseException as e:  # noqa
+            return f"the generated module does not import: {type(e).__name__}: {e}"
+        for src in instances(comps["Drv"], comps, 0, 60):
+            if not isinstance(src, dict):
+                continue
+            keep = copy.deepcopy(src)
+            try:
+                out = cls.from_dict(src).to_dict()
+            except BaseException as e:  # noqa
+                return f"from_dict/to_dict of {keep!r} raised {type(e).__name__}: {e}"
+            if out != keep:
+                return f"to_dict(from_dict(src)) == {out!r} != src == {keep!r}"
+        return None
+    finally:
+        pkg.cleanup()
